@@ -65,4 +65,25 @@ BadGapClauses(s) == UNION {GapClauses(s[i], Left(s, i), Right(s, i)) : i \in {j 
 FirstBadGap(s) ==
     LET bad == {i \in 1..Len(s) : IsGap(s[i]) /\ ~NormalGap(s[i], Left(s, i), Right(s, i))}
     IN IF bad = {} THEN 0 ELSE CHOOSE i \in bad : \A j \in bad : i <= j
+-----------------------------------------------------------------------------
+(* C18, indentation clause.  `ls' is the sequence of lines of a text that   *)
+(* start with an own-line comment, a closing delimiter or code (projection  *)
+(* line_info): [kind, ind, open_ind].                                        *)
+(*  - a closing delimiter that starts a line is indented like the line on   *)
+(*    which its opener stands;                                               *)
+(*  - an own-line comment is indented like the next code line, or, when the  *)
+(*    next line is a closing delimiter, two columns deeper than it; lines    *)
+(*    that start with an operator or in / then / else constrain nothing.     *)
+NextHard(ls, i) == LET later == {j \in (i + 1)..Len(ls) : ls[j].kind \in {"code", "close", "soft"}} IN
+                   IF later = {} THEN 0 ELSE CHOOSE j \in later : \A k \in later : j <= k
+LineOK(ls, i) ==
+    CASE ls[i].kind = "close" -> ls[i].ind = ls[i].open_ind
+      [] ls[i].kind = "comment" ->
+            LET j == NextHard(ls, i) IN
+            \/ j = 0 \/ ls[j].kind = "soft"
+            \/ (ls[j].kind = "code" /\ ls[i].ind = ls[j].ind)
+            \/ (ls[j].kind = "close" /\ ls[i].ind = ls[j].ind + 2)
+      [] OTHER -> TRUE
+C18_IndentOK(ls) == \A i \in 1..Len(ls) : LineOK(ls, i)
+FirstBadLine(ls) == LET bad == {i \in 1..Len(ls) : ~LineOK(ls, i)} IN IF bad = {} THEN 0 ELSE CHOOSE i \in bad : \A j \in bad : i <= j
 =============================================================================
